@@ -232,6 +232,28 @@ fn targeted(seed: u64, tier: &str) -> Vec<Doc> {
         };
         v.push(Doc { class: format!("targeted-{}", i % 8), path: None, data: doc.into_bytes(), dpi: *rng.pick(&[96.0, 96.0, 1.0, 4000.0]) });
     }
+    // viewport mappings and bounding-box products of extreme ratio: a tiny view box on a huge viewport (root, nested
+    // svg, symbol, marker, pattern, image), a huge gradient / pattern transform on a huge bounding box — the scale is
+    // a quotient or product of two finite numbers that need not be finite
+    let tiny_huge = ["1e-30", "1e-20", "1e-38", "1", "100", "1e20", "1e30", "3e38"];
+    let nm = (if tier == "thorough" { 1200 } else { 160 }) * budget_mult();
+    for i in 0..nm {
+        let mut p = |rng: &mut Rng| *rng.pick(&tiny_huge);
+        let (w, h, vw, vh) = (p(&mut rng), p(&mut rng), p(&mut rng), p(&mut rng));
+        let par = *rng.pick(&["", r#" preserveAspectRatio="none""#, r#" preserveAspectRatio="xMaxYMax slice""#]);
+        let hdr = r#"<svg xmlns="http://www.w3.org/2000/svg" xmlns:xlink="http://www.w3.org/1999/xlink" width="100" height="100">"#;
+        let doc = match i % 8 {
+            0 => format!(r#"<svg xmlns="http://www.w3.org/2000/svg" width="{w}" height="{h}" viewBox="0 0 {vw} {vh}"{par}><rect width="{vw}" height="{vh}" fill="url(#none) red"/><circle r="1"/></svg>"#),
+            1 => format!(r#"{hdr}<svg x="1" y="1" width="{w}" height="{h}" viewBox="0 0 {vw} {vh}"{par}><rect width="1" height="1"/></svg></svg>"#),
+            2 => format!(r##"{hdr}<defs><symbol id="s" viewBox="0 0 {vw} {vh}"{par}><rect width="1" height="1"/></symbol></defs><use xlink:href="#s" width="{w}" height="{h}"/></svg>"##),
+            3 => format!(r##"{hdr}<defs><marker id="m" markerWidth="{w}" markerHeight="{h}" viewBox="0 0 {vw} {vh}"{par}><rect width="1" height="1"/></marker></defs><path d="M 1 1 L 9 9" stroke="black" marker-end="url(#m)"/></svg>"##),
+            4 => format!(r##"{hdr}<defs><pattern id="p" width="{w}" height="{h}" viewBox="0 0 {vw} {vh}"{par} patternUnits="{}"><rect width="1" height="1"/></pattern></defs><rect width="{}" height="50" fill="url(#p)" stroke="url(#p)"/></svg>"##, rng.pick(&["userSpaceOnUse", "objectBoundingBox"]), p(&mut rng)),
+            5 => format!(r##"{hdr}<defs><linearGradient id="g" gradientTransform="scale({w} {h})"><stop offset="0"/><stop offset="1" stop-color="red"/></linearGradient><radialGradient id="r" gradientTransform="matrix({vw} 0 0 {vh} {w} 0)"><stop offset="0"/><stop offset="1" stop-color="red"/></radialGradient></defs><rect width="{}" height="{}" fill="url(#g)" stroke="url(#r)"/><text x="5" y="50" font-size="{}" fill="url(#g)">a</text></svg>"##, p(&mut rng), p(&mut rng), rng.pick(&["12", "1e20", "1e-20"])),
+            6 => format!(r##"{hdr}<defs><pattern id="p" width="1" height="1" patternContentUnits="objectBoundingBox" patternTransform="scale({w})"><rect width="1" height="1"/></pattern><clipPath id="c" clipPathUnits="objectBoundingBox" transform="scale({vw})"><rect width="1" height="1"/></clipPath><mask id="k" maskContentUnits="objectBoundingBox"><rect width="1" height="1" fill="white" transform="scale({vh})"/></mask></defs><rect width="{}" height="{}" fill="url(#p)" clip-path="url(#c)" mask="url(#k)"/></svg>"##, p(&mut rng), p(&mut rng)),
+            _ => format!(r##"{hdr}<image x="1" y="1" width="{w}" height="{h}"{par} xlink:href="data:image/svg+xml;utf8,&lt;svg xmlns='http://www.w3.org/2000/svg' width='{vw}' height='{vh}'&gt;&lt;rect width='1' height='1'/&gt;&lt;/svg&gt;"/><g transform="scale({vw})"><g transform="scale({vh})"><rect width="{w}" height="1"/></g></g></svg>"##),
+        };
+        v.push(Doc { class: format!("extreme-mapping-{}", i % 8), path: None, data: doc.into_bytes(), dpi: 96.0 });
+    }
     for f in std::fs::read_dir("/verif/findings/C04").into_iter().flatten().flatten() {
         if let Ok(data) = std::fs::read(f.path()) {
             v.insert(0, Doc { class: "past-failure".into(), path: None, data, dpi: 96.0 });
